@@ -645,7 +645,7 @@ func cfBeforeInject(fn *ssa.Function, st, inj ssa.CallInstruction) bool {
 // ---------- R3 reject construction ----------
 
 func c08RejectConstruction(r *Run) {
-	const rule = "C08-R3-reject-construction"
+	rule := r.aliased("C08-R3-reject-construction")
 	w := r.W
 	consts := map[string]int64{"RejectSTypeNotSupported": 1, "RejectPTypeNotSupported": 2, "RejectTransactionNotOpen": 3, "RejectNotSelected": 4}
 	for n, v := range consts {
@@ -851,7 +851,7 @@ func domNames(d []dom) []string {
 // ---------- R7 control layouts ----------
 
 func c08ControlLayouts(r *Run) {
-	const rule = "C08-R7-control-layouts"
+	rule := r.aliased("C08-R7-control-layouts")
 	w := r.W
 	stypes := map[string]int64{"DataMsgType": 0, "SelectReqType": 1, "SelectRspType": 2, "DeselectReqType": 3, "DeselectRspType": 4, "LinktestReqType": 5, "LinktestRspType": 6, "RejectReqType": 7, "SeparateReqType": 9}
 	for n, v := range stypes {
